@@ -9,6 +9,7 @@
     permutation); the option file and the report must not depend on it.
 """
 import itertools
+from fractions import Fraction
 import os
 import subprocess
 import sys
@@ -309,6 +310,104 @@ def far_history(ck, sh, mm, gname, kind):
                 timeout_ms=10000 if ck.tier == 'quick' else 60000)
 
 
+def fill_history(ck, sh, mm, gname, seq):
+    """The REAL matrix fill and the REAL near-field code with a history: one object goes through `seq` (c: matrix fill,
+    n: near field, f2/f1: change of frequency), a fresh object is filled once at the last frequency.  Every numerical
+    integral is an unknown (psi-atom stub), pulse currents are symbolic: the matrices agree entry by entry as linear forms
+    and the field components as bilinear forms for ALL values -- a cached array that is modified in place, or a cached
+    quantity that depends on the wavelength, makes them differ."""
+    from symx import psistub, poly
+    from . import psi_common as pc
+    from refmodels import catalogue as cat
+    from .c10 import _box_currents, _set_currents
+    M = sh.mininec
+    T = psistub.AtomTable()
+    pc.install(M, T)
+    F = dict(f1=29.98, f2=21.3)
+    x = np.array([1.3, -0.8, 2.5])
+
+    def run(m, steps, I):
+        nf = None
+        for st in steps:
+            if st == 'c':
+                with symx.object_arrays():
+                    m.compute_impedance_matrix()
+            elif st == 'n':
+                _set_currents(m, I)
+                m.power = 1.0
+                with symx.object_arrays():
+                    m.compute_near_field(x, np.ones(3), np.ones(3, dtype=int))
+                nf = (list(m.e_field[0]), list(m.h_field[0]))
+            else:
+                m.f = F[st]
+        return nf
+
+    def fn():
+        c = symx.ctx()
+        hist = cat.build(M, gname, f=F['f1'])
+        n = len(hist.pulses)
+        I = _box_currents(n, 1.0)
+        last = [st for st in seq if st in F][-1] if any(st in F for st in seq) else 'f1'
+        nf_h = run(hist, seq, I)
+        fresh = cat.build(M, gname, f=F[last])
+        nf_f = run(fresh, [st for st in ('c', 'n') if st in seq], I)
+        for a in pc.additivity_axioms(T):
+            c.axiom(a)
+        for b in T.box(1.0):
+            c.assume(b)
+        return dict(inputs=dict(I=I), Zh=hist.Z, Zf=fresh.Z, nf_h=nf_h, nf_f=nf_f, n=n)
+
+    def goals(o):
+        n = o['n']
+        g = [('matrix after the history = matrix of a fresh model', z3.And(*[pc.close_goal(o['Zh'][i][j], o['Zf'][i][j]) for i in range(n) for j in range(n)]))]
+        if o['nf_h'] is not None:
+            for nm, a_, b_ in (('E', o['nf_h'][0], o['nf_f'][0]), ('H', o['nf_h'][1], o['nf_f'][1])):
+                for k, ax in enumerate('xyz'):
+                    a, b = SC.lift(a_[k]), SC.lift(b_[k])
+                    d = a - b
+                    tot = Fraction(0)
+                    for part_ in (b.nr, b.ni):
+                        tot += sum(abs(v) for v in poly.expand(part_).values())
+                    g.append(('near field %s_%s after the history = that of a fresh model' % (nm, ax),
+                              z3.Not(poly.relaxation_query([d.nr, d.ni], {}, tot * Fraction(1, 10 ** 9) + Fraction(1, 10 ** 30), default=1))))
+        return g
+
+    def replay(conc, gn, out):
+        I = np.array([complex(v) for v in conc['I']])
+        if np.abs(I).max() < 1e-6:          # the relaxed query does not constrain the currents: use generic ones
+            I = np.array([complex(1 + 0.3 * k, 0.5 - 0.2 * k) for k in range(len(I))])
+        last = [st for st in seq if st in F][-1] if any(st in F for st in seq) else 'f1'
+
+        def runr(m, steps):
+            nf = None
+            for st in steps:
+                if st == 'c':
+                    m.compute_impedance_matrix()
+                elif st == 'n':
+                    m.current, m.power = I, 1.0
+                    m.compute_near_field(x, np.ones(3), np.ones(3, dtype=int))
+                    nf = np.concatenate([m.e_field[0], m.h_field[0]])
+                else:
+                    m.f = F[st]
+            return nf
+        hist = cat.build(mm, gname, f=F['f1'])
+        nh = runr(hist, seq)
+        fresh = cat.build(mm, gname, f=F[last])
+        nfr = runr(fresh, [st for st in ('c', 'n') if st in seq])
+        if np.abs(hist.Z - fresh.Z).max() > 1e-9 * np.abs(fresh.Z).max():
+            i, j = np.unravel_index(np.argmax(np.abs(hist.Z - fresh.Z)), fresh.Z.shape)
+            return ('C14:fill-history:%s' % ('ground' if hist.media is not None else 'free'),
+                    '%s after the sequence %s: Z[%d][%d] = %r, a fresh model at %g MHz gives %r' % (gname, '-'.join(seq), i, j, hist.Z[i, j], F[last], fresh.Z[i, j]),
+                    dict(kind='fill-history', geometry=gname, seq=list(seq)))
+        if nh is not None and np.abs(nh - nfr).max() > 1e-9 * np.abs(nfr).max():
+            return ('C14:near-field-history', '%s after the sequence %s: near field %s, a fresh model at %g MHz gives %s'
+                    % (gname, '-'.join(seq), np.array2string(nh[:3], precision=5), F[last], np.array2string(nfr[:3], precision=5)),
+                    dict(kind='near-field-history', geometry=gname, seq=list(seq)))
+        return None
+    prove_paths(ck, 'fill-history-%s-%s' % (gname, '-'.join(seq)), fn, goals, replay, max_paths=4, fork_policy='assume', twin_timeout_ms=20000,
+                timeout_ms=30000 if ck.tier == 'quick' else 120000)
+
+
 def run_to_run(ck, sh, mm, names):
     """(c): option file and load listing must not depend on the iteration order of object sets."""
     M = sh.mininec
@@ -375,6 +474,9 @@ def main(args):
     rnames = ['attach-2-of-3', 'attach-3-of-4', 'skin+ins'] if ck.tier == 'thorough' else ['attach-2-of-3', 'skin+ins']
     parts += [('run_to_run', ([n],)) for n in rnames]
     parts += [('far_history', ('G14', 'one')), ('far_history', ('G7', 'radials'))]
+    fseqs = [('c', 'c'), ('c', 'f2', 'c'), ('c', 'n', 'f2', 'c', 'n')]
+    fgeo = ('G8', 'G2') if ck.tier == 'quick' else ('G8', 'G2', 'G9', 'G16', 'G11')
+    parts += [('fill_history', (g, sq)) for g in fgeo for sq in fseqs]
     from .common import run_parallel
     run_parallel(ck, 'checks.c14', parts)
     ck.assumptions += ['Bessel functions, log, complex square root: uninterpreted functions / defining equations (so equal '
